@@ -426,11 +426,16 @@ def gen_history(rng, idx, thorough=False, many=False):
         for _ in range(nr):
             rid += 1
             dom = rng.choice(["local.test", "remote.test"])
-            a = "h%dr%d@%s" % (idx, rid, dom)
+            # (some addresses longer than the daemon's 128-byte read buffers and its line buffers' first sizes)
+            pad = "x" * rng.choice([120, 127, 128, 129, 260, 900]) if rng.random() < 0.12 else ""
+            a = "h%dr%d%s@%s" % (idx, rid, pad, dom)
             rcpts.append(a.encode())
             outcomes[a] = rng.choice(["K", "K", "D", "ZK", "ZZK", "ZD", "GK", "GZK", "ZGD", "KK", "gK"])
         sender = rng.choice([b"sender%d@origin.test" % idx, b"sender%d@origin.test" % idx, b"", b"owner-@list.test-@[]"])
-        messages.append({"body": b"Subject: t%d\n\nbody %d\n" % (idx, m), "sender": sender, "rcpts": rcpts})
+        body = b"Subject: t%d\n\nbody %d\n" % (idx, m)
+        if rng.random() < 0.15:
+            body += b"".join(b"line %04d of a longer body\n" % i for i in range(rng.choice([40, 320, 700])))
+        messages.append({"body": body, "sender": sender, "rcpts": rcpts})
     # the bounce goes back to the sender: its delivery may itself fail
     for s in ("sender%d@origin.test" % idx, "owner-@list.test", "postmaster@test.example", "owner-h%dr1=local.test@list.test" % idx):
         outcomes[s] = rng.choice(["K", "K", "K", "D", "ZK"])
